@@ -880,7 +880,11 @@ class Messenger(Connection):
         authn_ipaddrid = None
 
         sock_tls = self.get_secure_socket()
-        if sock_tls:
+        # A TLS client is asked for a certificate but may present none
+        cert_der = sock_tls.getpeercert(True) if sock_tls else None
+        if sock_tls and cert_der is None:
+            self._logger.warning('Peer presented no certificate')
+        if cert_der is not None:
             # Native (python ssl) validation for reference
             try:
                 ssl.match_hostname(sock_tls.getpeercert(), peer_dnsid or peer_addr_str)
@@ -888,7 +892,6 @@ class Messenger(Connection):
                 self._logger.warning('Native name validation failed: %s', err)
 
             # Verify TLS name bindings
-            cert_der = sock_tls.getpeercert(True)
             cert = x509.load_der_x509_certificate(cert_der, default_backend())
             self._logger.debug('Peer certificate: %s', cert)
 
@@ -912,6 +915,7 @@ class Messenger(Connection):
             # Exact NODE-ID matching
             authn_nodeid = match_id(peer_nodeid, cert, x509.UniformResourceIdentifier, self._logger, 'NODE-ID')
 
+        if sock_tls:
             any_fail = (peer_ipaddrid and authn_ipaddrid is False) or (peer_dnsid and authn_dnsid is False) or authn_nodeid is False
             # a name type that is present but could not be matched does not authenticate the host
             netname_absent = not authn_ipaddrid and not authn_dnsid
